@@ -1,6 +1,8 @@
 import PvlModel.Lemmas.DateTime
 import PvlModel.Lemmas.OdlZone
 import PvlModel.Lemmas.PdsTime
+import PvlModel.Lemmas.Doy
+import PvlModel.Lemmas.Frac
 import PvlModel.Gen.Tables
 /-!
 # C14 — date and time values keep their type, instant and time-zone meaning
@@ -41,7 +43,11 @@ expression's alternative order, and the rest is the time / date-time proved abov
 `HH:MM[:SS[.mmm]][Z]` with three fraction digits, both settings of `time_trailing_z`, naive or UTC values of
 whole milliseconds.
 
-Day-of-year dates, leap seconds and the refusal branches are decided by the generator's independent reading of
+**Day-of-year dates** (`C14_doy_date_decodes`): `YYYY-DDD` is the calendar date whose ordinal day is `DDD`
+(`monthDayOf_spec`).  **Fractions of any length** (`C14_time_fraction_decodes`): one to six digits, scaled to
+microseconds.
+
+Day-of-year date-times, leap seconds and the refusal branches are decided by the generator's independent reading of
 each spelling against the real decoders and the model (`vlib/props/c14.py`); their theorems are open.
 -/
 namespace Pvl
@@ -319,6 +325,58 @@ theorem C14_datetime_roundtrip_pds (c : EncCfg) (hk : c.kind = .pds) (hdk : c.d.
 
 /-- the PDS3 table reads a naive time as UTC -/
 example : Gen.pds.defaultUtc = true := rfl
+
+
+
+theorem doyTables_ok : ∀ g ∈ [Gen.pvl, Gen.odl, Gen.pds, Gen.isis, Gen.omni], DoyTablesOK g = true := by
+  decide
+
+/-- **C14, day-of-year dates**: `YYYY-DDD`, for every year 1–9999 and every day number the year has (366 only
+    in leap years), is decoded by each decoder class to the calendar date whose ordinal day in that year is
+    `DDD`: month `m` and day `d` with `d` a day of month `m` and `(days before month m) + d = DDD`.  The
+    calendar format is shown to fail first (whichever way `%m` splits the digits, no `-` follows), then `%j`
+    takes all three digits. -/
+theorem C14_doy_date_decodes (dc : Dec) (hg : DoyTablesOK dc.g = true) (y j : Nat) (hy1 : 1 ≤ y) (hy2 : y ≤ 9999)
+    (h1 : 1 ≤ j) (h2 : j ≤ diy y) :
+    ∃ m d, decodeDatetime dc (doyText y j) = .ok (.date y m d) ∧ 1 ≤ m ∧ m ≤ 12 ∧ 1 ≤ d ∧ d ≤ daysInMonth y m ∧
+      daysBeforeMonth y m + d = j := by
+  have hb := decodeDatetimeBase_doy dc.g hg y j hy1 hy2 h1 h2
+  obtain ⟨a, b, c, d, e⟩ := monthDayOf_spec y j h1 h2
+  refine ⟨(monthDayOf y j).1, (monthDayOf y j).2, ?_, a, b, c, d, e⟩
+  unfold decodeDatetime
+  cases hk : dc.kind
+  · simp [hb]
+  · simp [hb, decodeDatetimeOdl]
+  · simp [hb]
+  · simp [hb, decodeDatetimeOdl]
+
+/-- 2024-060 is 29 February, 2023-060 is 1 March, 2023-365 is 31 December -/
+example : monthDayOf 2024 60 = (2, 29) ∧ monthDayOf 2023 60 = (3, 1) ∧ monthDayOf 2023 365 = (12, 31) := by decide
+
+
+
+/-- **C14, fractions of a second of any written length**: `HH:MM:SS.f`, `.ff`, … `.ffffff` (one to six
+    digits), with or without `Z`, is read by each decoder as that clock time with the fraction scaled to
+    microseconds (`.5` is 500000 µs, `.123` is 123000 µs): `%f` tries six, five, … digits and takes exactly the
+    written ones.  The PDS3 decoder accepts it when the value is a whole number of milliseconds. -/
+theorem C14_time_fraction_decodes (dc : Dec) (hg : TimeTablesOK6 dc.g = true) (h mi s : Nat) (hh : h < 24)
+    (hm : mi < 60) (hs : s < 60) (ds : Str) (hd : AllDigits ds) (h1 : 1 ≤ ds.length) (h6 : ds.length ≤ 6)
+    (hp : dc.kind = .pds → fracMicros ds % 1000 = 0) :
+    decodeDatetime dc (pad h 2 ++ 58 :: (pad mi 2 ++ 58 :: (pad s 2 ++ 46 :: ds))) =
+      .ok (.time h mi s (fracMicros ds) (defaultTz dc.g)) ∧
+    decodeDatetime dc (pad h 2 ++ 58 :: (pad mi 2 ++ 58 :: (pad s 2 ++ 46 :: (ds ++ [90])))) =
+      .ok (.time h mi s (fracMicros ds) (some 0)) := by
+  obtain ⟨b1, b2⟩ := decodeDatetimeBase_time_frac dc.g hg h mi s hh hm hs ds hd h1 h6
+  unfold decodeDatetime
+  cases hk : dc.kind
+  · simp [b1, b2]
+  · simp [b1, b2, decodeDatetimeOdl]
+  · have := hp hk
+    simp [b1, b2, this]
+  · simp [b1, b2, decodeDatetimeOdl]
+
+example : fracMicros [53] = 500000 ∧ fracMicros [49, 50, 51] = 123000 ∧ fracMicros [48, 48, 48, 48, 48, 49] = 1 := by
+  decide
 
 
 /-- **the order and the zone pattern the model follows are the ones in the source**: `decode_datetime` tries the
